@@ -651,6 +651,14 @@ Definition fref_ops_m (v : Z) : list Z := [v + 1; v + 20; v + 20; v + 20; v + 20
 (* not_fn<is_neg>()(v) *)
 Definition notfn_static_m (v : Z) : bool := negb (v <? 0).
 
+(* copies and moves of the wrappers themselves (op wrapcopy): bind_front_t / not_fn_t have implicit copy / move constructors
+   that copy / move the stored callable (with its state) and the bound arguments; a callable bound through reference_wrapper is
+   shared.  The callable counts its calls from x; results are count * 1000 + bound * 10 + call argument:
+   g = bind_front(Acc{x}, y); g(1); h = g; h(2); g(3); k = move(g); k(4);  not_fn(Acc{x}) copied and moved, called with y
+   (Acc(a) const = a < x);  s = bind_front(ref(acc), y); s2 = s; s(1); s2(2): acc counted both calls *)
+Definition wrapcopy_m (x y : Z) : list Z * list bool * Z :=
+  ([ (x + 1) * 1000 + y * 10 + 1; (x + 2) * 1000 + y * 10 + 2; (x + 2) * 1000 + y * 10 + 3; (x + 3) * 1000 + y * 10 + 4 ],
+   [ negb (y <? x); negb (y <? x) ], x + 2).
 (* a void signature: the thunk calls invoke_r<void>, which discards the result; three calls with x, x+1, x+2
    accumulate in the captured counter *)
 Definition void_ret_m (x : Z) : Z := x + (x + 1) + (x + 2).
@@ -921,6 +929,16 @@ Definition fref_ptr_m (v : Z) : list Z * list bool :=
 Definition cm (b : option built) : Z :=
   match b with Some (Constructed false) => 10 | Some (Constructed true) => 1 | _ => 0 end.
 Definition VK : ty := mkty false RNone.
+(* construction of the call wrappers: how the callable and the bound arguments get INTO the wrapper (op wctor)
+   bind_front(Func&& func, BoundArgs&&... boundArgs)
+     { return bind_front_t<decay_t<Func>, decay_t<BoundArgs>...>{forward<Func>(func), forward<BoundArgs>(boundArgs)...}; }
+   bind_front_t(F&& f, BA&&... ba) : _func(forward<F>(f)), _boundArgs(forward<BA>(ba)...)   -- tuple<BoundArgs...>'s constructors *)
+Definition bindfront_ctor_m (fc : ty) (bound : list ty) : option (built * list built) :=
+  do f1 <- perfect_fwd fc; do f2 <- perfect_fwd f1; do bf <- init_elem VK f2;
+  do bs <- map_opt (fun a => do a1 <- perfect_fwd a; do a2 <- perfect_fwd a1; tuple_ctor_m VK a2) bound;
+  Some (bf, bs).
+(* not_fn(F&& f) -> not_fn_t<decay_t<F>> { return {forward<F>(f)}; }   -- aggregate initialisation of the member f *)
+Definition notfn_ctor_m (fc : ty) : option built := do f1 <- perfect_fwd fc; init_elem VK f1.
 (* the category the single bound argument of bind_front arrives with at the target, for a wrapper of category w *)
 Definition bound_arrives (w : ty) : ty :=
   match bindfront_call_all_m w 1 [] with Some (_, b :: _) => b | _ => LV end.
